@@ -318,6 +318,9 @@ func (c09) Eval(c *Chooser, env *Env) *Outcome {
 	if len(groups) == 0 {
 		return o
 	}
+	if c.Weighted("world.flowstyle", 1, 6) && c09Flow(c, env, o, header, groups, cfg) {
+		return o
+	}
 	// composed order: a random interleaving of all blocks
 	var all []c09Block
 	var assetNames []string
